@@ -489,7 +489,10 @@ func cliRawTransmissionProbe() string {
 		}
 		for i, size := range []int{300, 1500, 1501, 2014, 4000} {
 			req := req4(uint32(cliMXidBase + 20 + i))
-			base := len(req.ToBytes())
+			base := 240 + 1
+			for _, v := range req.Options {
+				base += len(v) + 2*max(1, (len(v)+254)/255)
+			}
 			for v := size - base; v > 0; v-- {
 				if v+2*((v+254)/255) == size-base {
 					req.UpdateOption(dhcpv4.OptGeneric(dhcpv4.GenericOptionCode(231), bytes.Repeat([]byte{byte(0x30 + i)}, v)))
